@@ -19,6 +19,6 @@ def register(unit):
 
 def load_all():
     import importlib
-    for m in ('matrices', 'members', 'lemmas_z3', 'contexts', 'lindig', 'common_alg', 'visualize', 'fcbo', 'fcbo_theory', 'fcbo_complete', 'algorithms_init', 'ctx_init', 'lattices', 'tools_unique', 'definitions', 'annotate', 'lat_init', 'junctors', 'persist', 'lat_fromlist', 'formats', 'invariance', 'traversal', 'agreement', 'bitsets_lib', 'bitsets_powerset', 'formats_lines', 'formats_csv', 'cover_io', 'cover_core', 'formats_chars', 'formats_chars_table', 'formats_chars_csv'):
+    for m in ('matrices', 'members', 'lemmas_z3', 'contexts', 'lindig', 'common_alg', 'visualize', 'fcbo', 'fcbo_theory', 'fcbo_complete', 'algorithms_init', 'ctx_init', 'lattices', 'tools_unique', 'definitions', 'annotate', 'lat_init', 'junctors', 'persist', 'lat_fromlist', 'formats', 'invariance', 'traversal', 'agreement', 'bitsets_lib', 'bitsets_powerset', 'formats_lines', 'formats_csv', 'cover_io', 'cover_core', 'formats_chars', 'formats_chars_table', 'formats_chars_csv', 'bitsets_bin'):
         importlib.import_module('contracts.' + m)
     return UNITS
